@@ -97,10 +97,19 @@ class Ctx:
     def count(self, key, n=1):
         self.counters[key] += n
 
+    MAX_HASHES = 150000  # per name and worker; beyond it only counted
+
     def seen(self, name, obj):
-        """Record a distinct thing (state, case shape, path) under name."""
-        self.hashes[name].add(obj if isinstance(obj, str) and len(obj) == 16
-                              else h64(obj))
+        """Record a distinct thing (state, case shape, path) under name.
+        The set is capped so that thorough tiers stay within memory: once
+        full, further items are only counted (``distinct_overflow:<name>``)
+        and the reported distinct count is a lower bound."""
+        hs = self.hashes[name]
+        if len(hs) >= self.MAX_HASHES:
+            self.counters["distinct_overflow:" + name] += 1
+            return
+        hs.add(obj if isinstance(obj, str) and len(obj) == 16
+               else h64(obj))
 
     def sample(self, obj):
         if len(self.samples) < self.MAX_SAMPLES:
